@@ -788,6 +788,34 @@ static void seq_eval(uint64_t idx, void *ctx) {
     if (idx == 5000) v_sample("seq:5000 = %s", describe(w, (int)n));
 }
 
+/* ------------------------------------------------------------------ section: fill ------------------------- */
+/* every alphabet call issued when the encoder buffer has exactly r = 14..0 / 17..0 free bytes left before its first
+ * (256) and second (512) growth point: the reserve-then-encode step must grow for every head width */
+static uint64_t fill_total(void) { return 2ull * 18 * NALPHA; }
+static void fill_eval(uint64_t idx, void *ctx) {
+    (void)ctx;
+    BEE_ITEM(idx);
+    uint64_t i = idx;
+    unsigned a = bee_digit(&i, NALPHA), j = bee_digit(&i, 18), base = (unsigned)i;
+    if (base == 0 && j > 14) { /* 242 + j would pass 256: not a distinct state */
+        V_COUNT("fill_skipped_duplicates", 1);
+        return;
+    }
+    struct witem w[MAXP];
+    int n = 0;
+    w[n++] = ws(W_TEXT, 240, 11);               /* 242 bytes used, capacity 256 */
+    if (base) w[n++] = ws(W_BYTES, 250, 12);    /* 495 bytes used, capacity 512 */
+    for (unsigned k = 0; k < j; ++k) w[n++] = wi(W_NULL, 0);
+    int at = n;
+    w[n++] = alpha_item(a);
+    w[n++] = ws(W_TEXT, 2, 0);
+    run_program(w, n, 1u << M_PEEK_POP | 1u << M_POP, -1, -1, RP_RESET);
+    V_COUNT("evaluations", 1);
+    V_COUNT("nontrivial", 1);
+    if (idx == 300) v_sample("fill:300 = %s (item %d written with %u bytes free)", describe(w, n), at, (base ? 512 - 495 : 256 - 242) - j);
+    free_items(w, n);
+}
+
 /* ------------------------------------------------------------------ section: nest ------------------------- */
 #define NLEAF 14
 struct shape {
@@ -906,6 +934,7 @@ int main(int argc, char **argv) {
     bee_register("strings", strings_total, strings_eval, 20);
     bee_register("simple", simple_total, simple_eval, 10);
     bee_register("seq", seq_total, seq_eval, 10);
+    bee_register("fill", fill_total, fill_eval, 10);
     bee_register("nest", nest_total, nest_eval, 10);
     return bee_main(argc, argv);
 }
